@@ -11,6 +11,7 @@
 package fstrace
 
 import (
+	"syscall"
 	"bufio"
 	"fmt"
 	"os"
@@ -557,6 +558,7 @@ func Load(root string) (*FS, error) {
 	if _, err := os.Lstat(root); os.IsNotExist(err) {
 		return fs, nil
 	}
+	byIno := map[uint64]*Node{} // names that are hard links to one file share a node
 	err := filepath.Walk(root, func(p string, info os.FileInfo, err error) error {
 		if err != nil {
 			return err
@@ -569,6 +571,20 @@ func Load(root string) (*FS, error) {
 		case info.IsDir():
 			fs.Dirs[rel] = true
 		case info.Mode().IsRegular():
+			if st, ok := info.Sys().(*syscall.Stat_t); ok && st.Nlink > 1 {
+				if n := byIno[st.Ino]; n != nil {
+					fs.Files[rel] = n
+					return nil
+				}
+				b, err := os.ReadFile(p)
+				if err != nil {
+					return err
+				}
+				n := &Node{Data: b, Orig: rel}
+				byIno[st.Ino] = n
+				fs.Files[rel] = n
+				return nil
+			}
 			b, err := os.ReadFile(p)
 			if err != nil {
 				return err
